@@ -1326,11 +1326,31 @@ func (c *Ctx) checkEscaperSemantics(r *Report, ro *Roles, rule string, thorough 
 		var bad []string
 		var oodWhy string
 		runs := 0
+		// long strings into a buffer that already holds a line and has 4 KiB of spare capacity (a recycled buffer): code
+		// that builds in the buffer's spare room must not disturb what is there, nor its own earlier output
+		const warmPrefix = "already written||"
+		type strCase struct {
+			s    string
+			warm bool
+		}
+		var cases []strCase
+		for _, sv := range strs {
+			cases = append(cases, strCase{sv, false})
+		}
+		for _, n := range []int{200, 255, 256, 257, 300, 511, 513, 700, 1500, 4000, 4200} {
+			unit := "plain text \"q\" back\\slash \n tab\t é日本😀 \xff end;"
+			cases = append(cases, strCase{strings.Repeat(unit, n/len(unit)+1)[:n], true}, strCase{strings.Repeat("a", n), true}, strCase{strings.Repeat("\n", n/2), true})
+		}
 		for _, method := range []string{"AppendString", "AppendKey"} {
-			for _, sv := range strs {
+			for _, cs := range cases {
+				sv := cs.s
 				ip := w.interp()
-				ip.MaxSteps = 400000
-				buf := &Ptr{O: ip.newObj(&BufV{})}
+				ip.MaxSteps = 4000000
+				bv := &BufV{}
+				if cs.warm {
+					bv = &BufV{S: []byte(warmPrefix), Spare: 4096}
+				}
+				buf := &Ptr{O: ip.newObj(bv)}
 				args := []AV{buf}
 				for _, p := range ctor.Params[1:] {
 					if isStringType(p.Type()) {
@@ -1370,6 +1390,15 @@ func (c *Ctx) checkEscaperSemantics(r *Report, ro *Roles, rule string, thorough 
 					continue
 				}
 				out := string(buf.O.V.(*BufV).S)
+				if cs.warm {
+					if !strings.HasPrefix(out, warmPrefix) {
+						if len(bad) < 3 {
+							bad = append(bad, fmt.Sprintf("%s of a %d-byte string into a buffer that already holds %q: the earlier content is now %.40q", method, len(sv), warmPrefix, out))
+						}
+						continue
+					}
+					out = out[len(warmPrefix):]
+				}
 				lit := out
 				switch {
 				case isJSON && method == "AppendKey":
